@@ -83,6 +83,13 @@ def run(tier, seed):
     _sv, _sn, _sst = _sq.run_stories(PROP, fxv, rd, "inflightstory", 2 if tier == "quick" else 10,
                                      "an accepted delete never reached the device")
     viol = viol + _sv
+    # design level, liveness (WriteBehind.tla under weak fairness of worker, start-up and flush caller)
+    import crashengine as _ce
+    _lv = v.run_tlc("MCWriteBehind", "MCWriteBehind_live.cfg", rd, workers=4, timeout=1200, coverage=False, xmx="8g")
+    v.tlc_ok(_lv, "MCWriteBehind(live)")
+    if _lv.violation:
+        viol = viol + [{"what": "model: the write-behind worker does not drain what was accepted (and the device is not out of space) (%s)" % _lv.violation, "replay": v.save_replay("c19", "mc_live.out", _lv.out[-6000:]), "key": "mc live"}]
+    cov["liveness_states"] = _lv.distinct
     return {"level": "model_checking", "coverage": cov, "violations": viol,
             "assumptions": ["wall-clock bound of 3 s against a documented 100 ms interval (30x margin)",
                             "shard/worker count controlled through sched_setaffinity"]}
